@@ -188,6 +188,18 @@ def corruptions(g1):
     mut("nested container duplicated with a change", dup("ContainerSet", 1, lambda c: c.attrs["attrib"].__setitem__("abstract", "true")))
     mut("leaf container duplicated with a change", dup("ContainerSet", 3, lambda c: c.attrs["attrib"].__setitem__("abstract", "true")))
     mut("last leaf container duplicated with a change", dup("ContainerSet", 4, lambda c: c.attrs["attrib"].__setitem__("shortDescription", "other")))
+
+    def other_long_description(c):
+        from ..xmlmodel import make_elem, split_tag, clark
+        ns, _ = split_tag(c.attrs["tag"])
+        for k in c.attrs["__children__"]:
+            if is_elem(k) and k.attrs["tag"].endswith("LongDescription"):
+                k.attrs["text"] = (k.attrs["text"] or "") + " (revised)"
+                return
+        ld = make_elem(clark(ns, "LongDescription") if ns else "LongDescription", text="another description")
+        ld.attrs["__parent__"] = c
+        c.attrs["__children__"].insert(0, ld)
+    mut("leaf container duplicated with another LongDescription", dup("ContainerSet", 3, other_long_description))
     mut("container duplicated identically", dup("ContainerSet", 4), "consistent-or-reject")
 
     def delete(setname, name):
